@@ -15,7 +15,8 @@ for dp, dn, fns in os.walk(os.path.join(root, "pyairtouch")):
             rel = os.path.relpath(p, root)[:-3].replace(os.sep, ".")
             if rel.endswith(".__init__"):
                 rel = rel[:-9]
-            out[rel] = canon.census(ast.parse(open(p, encoding="utf-8").read()))
+            is_pkg = fn == "__init__.py"
+            out[rel] = canon.census(ast.parse(open(p, encoding="utf-8").read()), rel, is_pkg)
 dst = os.path.join(VERIF, "sa", "spec", "reference_symbols.json")
 json.dump(out, open(dst, "w"), indent=0, sort_keys=True)
 print("wrote", dst, len(out), "modules", os.path.getsize(dst), "bytes")
